@@ -2,11 +2,14 @@ SPECIFICATION Spec
 CONSTANTS
   MaxLen = 4
   MaxLenCheap = 4
+  KindLen = 3
   InitAll = FALSE
   BugNextArgNoSkip = FALSE
   BugUseFlagAll = FALSE
   BugOptionalOrigState = FALSE
   BugNames = "none"
+  BugMissingIsOther = FALSE
+  BugUsage = "none"
 VIEW View
 INVARIANTS ObsSuccessorOfOptionNameNotPositional
 CHECK_DEADLOCK FALSE
